@@ -577,9 +577,11 @@ def validate_many(names, sdir, wd, shard=6, par=10):
         idx, ns = idx_names
         cat = os.path.join(vdir, "shard_%d_%d.ndjson" % (os.getpid(), idx))
         nlines = 1
+        offset = {}
         with open(cat, "w") as f:
             for n in ns:
                 text = open(os.path.join(sdir, n + ".ndjson")).read()
+                offset[n] = nlines - 1
                 nlines += text.count("\n")
                 f.write(text)
             f.write(EOF_LINE)
@@ -597,6 +599,8 @@ def validate_many(names, sdir, wd, shard=6, par=10):
             log(r.out[-3000:])
             raise ToolError("trace shard %s was not consumed to its end by Trace_Client (consumed=%s of %d lines)" %
                             (cat, consumed, nlines))
+        # line numbers relative to the scenario's own trace file
+        tags = [[t[0] - offset.get(t[3], 0), t[1], t[2], t[3]] for t in tags]
         return tags, consumed
 
     with ThreadPoolExecutor(max_workers=par) as ex:
@@ -634,3 +638,411 @@ def owner_tags(pid, tags):
         elif prop == pid:
             out.append((what, what, ln))
     return out
+
+
+# ---------------------------------------------------------------------------------------------------
+# findings: what each confirmed deviation of the code explains, and who owns it
+
+FINDINGS = {
+    "S12": {"props": ("C05",), "site": "watchtower-plugin/src/main.rs::on_commitment_revocation",
+            "scenario": "answer-neither-response-nor-api-error/notification-path",
+            "explains": {"dev:S12", "NeverLost"},
+            "what": "an add_appointment answer that is neither a response nor an API error (non-JSON, wrong shape, error "
+                    "code out of range, connection closed) on the notification path records nothing: the appointment "
+                    "is lost for that tower"},
+    "S13": {"props": ("C13",), "site": "watchtower-plugin/src/retrier.rs::Retrier::run",
+            "scenario": "answer-neither-response-nor-api-error/retry-path",
+            "explains": {"dev:S13", "NoFlood.request_before_backoff"},
+            "what": "the same class of answer inside the retry loop is ignored and the appointment is re-sent at once, "
+                    "without back-off, for as long as the tower answers like that"},
+    "S14": {"props": ("C14", "C05", "C13"), "site": "watchtower-plugin/src/net/http.rs::send_appointment",
+            "scenario": "undecodable-signature",
+            "explains": {"dev:S14", "abort:S14", "Survives", "NeverLost", "Survives.no_answer_to_notify",
+                         "Delivered.not_within_bound"},
+            "what": "an appointment response whose signature cannot be decoded panics (recover_pk(..).unwrap()): the "
+                    "commitment_revocation hook never answers and the remaining towers are skipped; in the retrier "
+                    "the task dies and the tower stays 'being retried' for ever"},
+    "S15": {"props": ("C05",), "site": "watchtower-plugin/src/wt_client.rs::add_appointment_receipt/add_pending_appointment/add_invalid_appointment",
+            "scenario": "second-record-for-tower-and-appointment",
+            "explains": {"dev:S15", "abort:S15", "ExactlyOne", "NeverLost", "Survives", "*"},
+            "what": "a second record for a (tower, appointment) that already has one (duplicate notification, "
+                    "re-delivery after a kill between 'add receipt' and 'remove pending', second bad signature) fails "
+                    "the insert, unwrap() panics with the state mutex held and every later handler panics too"},
+    "S18": {"props": ("C14",), "site": "watchtower-plugin/src/wt_client.rs::set_tower_status (callers: Retrier::start, on_commitment_revocation)",
+            "scenario": "status-of-misbehaving-tower-overwritten",
+            "explains": {"dev:S18", "Misbehaving", "BadSig", "BadSig.request_to_misbehaving_tower"},
+            "what": "a handler / retrier that read the tower status before it was flagged misbehaving overwrites "
+                    "'misbehaving' (temporary_unreachable, subscription_error, reachable) and appointments are sent to "
+                    "the tower again although its misbehaviour proof is stored"},
+    "S19": {"props": ("C13",), "site": "watchtower-plugin/src/main.rs::on_commitment_revocation + retrier.rs::RetryManager::manage_retry",
+            "scenario": "revocation-between-idle-wake-and-start",
+            "explains": {"dev:S19", "Delivered.not_within_bound"},
+            "what": "a revocation arriving after an idle retrier was woken (pending data reloaded, retrier no longer "
+                    "registered as idle) but before it is started (tower still shown unreachable) is stored as pending "
+                    "and not passed to the retrier: the tower ends up 'reachable' with the appointment pending for ever"},
+}
+ORDER = ["S15", "S14", "S12", "S13", "S18", "S19"]
+
+
+def classify(pid, tags):
+    """tags of ONE scenario -> list of (finding id or None, key tag, text, line) for property pid."""
+    devs = set()
+    first_line = {}
+    for (ln, prop, what, _n) in tags:
+        f = None
+        if what.startswith("dev:"):
+            f = what[4:]
+        elif prop == "ABORT":
+            for rx, fid, _props in ABORT_SITES:
+                if rx.search(what):
+                    f = fid
+        if f:
+            devs.add(f)
+            first_line[f] = min(first_line.get(f, ln), ln)
+    out = []
+    for (ln, prop, what, _n) in tags:
+        if prop == "INCONCLUSIVE":
+            out.append(("INCONCLUSIVE", what, what, ln))
+            continue
+        key = what
+        if prop == "ABORT":
+            fid = None
+            for rx, f, _props in ABORT_SITES:
+                if rx.search(what):
+                    fid = f
+            if fid is None:
+                if SECONDARY.search(what) and ("S15" in devs or "S14" in devs):
+                    continue        # lock().unwrap() on the poisoned mutex: consequence of S15
+                if pid == "C14":
+                    out.append((None, "abort:" + what, "panic at " + what, ln))
+                continue
+            key = "abort:" + fid
+            if pid in [pr for rx, f, props in ABORT_SITES if f == fid for pr in props]:
+                out.append((fid, key, "panic at " + what, ln))
+            continue
+        if prop != pid:
+            continue
+        fid = None
+        for f in ORDER:
+            if f not in devs:
+                continue
+            ex = FINDINGS[f]["explains"]
+            if key in ex or ("*" in ex and ln >= first_line[f]):
+                fid = f
+                break
+        if fid is not None and pid not in FINDINGS[fid]["props"]:
+            continue                # collateral damage of a finding another property owns
+        out.append((fid, key, what, ln))
+    return out
+
+
+def signature(trace_path):
+    """(distinct-behaviour signature, non-trivial?) of an implementation trace: multiset of (event, class / answer)"""
+    sig = {}
+    nontrivial = False
+    with open(trace_path) as f:
+        for line in f:
+            e = json.loads(line)
+            ev = e["ev"]
+            if ev in ("obs", "same", "start", "end", "mode", "waited", "note"):
+                continue
+            k = (ev, e.get("m", "-"), e.get("ep", "-"), ",".join(e.get("cls", [])) if ev == "rep" else "", e.get("res", "-"))
+            sig[k] = sig.get(k, 0) + 1
+            if (ev == "rep" and e.get("cls") != ["accept"]) or ev in ("kill", "abort", "noret") or \
+                    (ev == "env" and not e.get("up", True)):
+                nontrivial = True
+    return json.dumps(sorted((list(k), v) for k, v in sig.items())), nontrivial
+
+
+# ---------------------------------------------------------------------------------------------------
+# TLC at the design level
+
+SAFETY_INVS = {
+    "C05": ["InvNeverLost", "InvExactlyOne", "InvDataForResend", "InvStore"],
+    "C13": ["InvOneLoop", "InvNoFlood", "InvEndsUnreachable", "InvMapSound"],
+    "C14": ["InvBadSig", "InvMisbehaving", "InvSurvives", "InvStore"],
+}
+ALL_KINDS = '{"sub_error", "reject", "garbage", "badsig", "malsig"}'
+
+
+def mc_consts(towers, locs, **kw):
+    c = {"Towers": "{%s}" % ", ".join('"t%d"' % (i + 1) for i in range(towers)),
+         "Locators": "{%s}" % ", ".join('"l%d"' % (i + 1) for i in range(locs)),
+         "DEVIATIONS": "{}", "MaxNotify": 2, "MaxConc": 2, "MaxKill": 1, "MaxBad": 2, "MaxDown": 1, "MaxRetry": 1,
+         "MaxAbandon": 0, "MaxReg": 0, "AddKinds": ALL_KINDS, "RegKinds": '{"same", "badsig", "garbage"}'}
+    c.update(kw)
+    return c
+
+
+def run_tlc_cfg(wd, name, consts, invs=None, props=None, spec="Spec", workers=10, timeout=2400, heap="24g"):
+    """MC_Client with a generated configuration; returns dict with the outcome."""
+    os.makedirs(wd, exist_ok=True)
+    cfg = os.path.join(wd, "%s.cfg" % name)
+    with open(cfg, "w") as f:
+        f.write("CONSTANTS\n" + "".join("  %s = %s\n" % kv for kv in consts.items()))
+        f.write("SPECIFICATION %s\n" % spec)
+        if invs:
+            f.write("INVARIANTS %s\n" % " ".join(invs))
+        if props:
+            f.write("PROPERTIES %s\n" % " ".join(props))
+        f.write("CHECK_DEADLOCK FALSE\n")
+    meta = os.path.join(wd, "meta_%s_%d" % (name, os.getpid()))
+    env = dict(os.environ)
+    env["JAVA_TOOL_OPTIONS"] = "-Xss1g -Xmx%s" % heap
+    t0 = time.time()
+    try:
+        p = subprocess.run(["tlc", "-workers", str(workers), "-metadir", meta, "-cleanup", "-noGenerateSpecTE", "-config", cfg,
+                            os.path.join(SPEC, "MC_Client.tla")], cwd=SPEC, env=env, stdout=subprocess.PIPE,
+                           stderr=subprocess.STDOUT, text=True, timeout=timeout)
+    except subprocess.TimeoutExpired:
+        raise ToolError("TLC timeout on MC_Client/%s" % name)
+    finally:
+        subprocess.run(["rm", "-rf", meta])
+    out = p.stdout
+    res = {"config": name, "consts": {k: consts[k] for k in ("Towers", "Locators", "DEVIATIONS", "MaxNotify", "MaxConc", "MaxKill",
+                                                             "MaxBad", "MaxDown", "MaxRetry")},
+           "checked": (invs or []) + (props or []), "wall_s": round(time.time() - t0, 1), "ok": False, "violated": None,
+           "distinct": 0, "generated": 0}
+    m = None
+    for m in re.finditer(r"(\d+) states generated, (\d+) distinct states found", out):
+        pass
+    if m:
+        res["generated"], res["distinct"] = int(m.group(1)), int(m.group(2))
+    if "Model checking completed. No error has been found." in out:
+        res["ok"] = True
+    else:
+        m = re.search(r"Error: Invariant (\S+) is violated", out) or re.search(r"Error: Temporal property (\S+) was violated", out) \
+            or re.search(r"Error: (Temporal properties were violated)", out)
+        if m:
+            res["violated"] = m.group(1)
+        else:
+            log(out[-3000:])
+            raise ToolError("TLC failed on MC_Client/%s" % name)
+    return res
+
+
+def design_level(pid, tier, wd, stats):
+    """the intended design satisfies the property (else the SPECIFICATION is wrong: tool error); thorough: every
+    confirmed deviation owned by the property makes TLC produce a counterexample (anti-vacuity)"""
+    mdir = os.path.join(wd, "tlc")
+    invs = SAFETY_INVS[pid]
+    runs = []
+    if tier == "quick":
+        runs.append(("safety_1x1", mc_consts(1, 1), invs, None, "Spec"))
+        runs.append(("safety_2x1_small", mc_consts(2, 1, MaxNotify=1, MaxBad=1, MaxRetry=0, MaxConc=1), invs, None, "Spec"))
+        if pid == "C13":
+            runs.append(("live_1x2", mc_consts(1, 2, MaxNotify=1, RegKinds='{"garbage"}'), None, ["Delivered"], "LiveSpec"))
+    else:
+        runs.append(("safety_1x1", mc_consts(1, 1), invs, None, "Spec"))
+        runs.append(("safety_2x2", mc_consts(2, 2, MaxNotify=1, MaxBad=1, MaxRetry=0), invs, None, "Spec"))
+        runs.append(("safety_2x1", mc_consts(2, 1, MaxConc=1), invs, None, "Spec"))
+        runs.append(("safety_1x2", mc_consts(1, 2), invs, None, "Spec"))
+        if pid == "C13":
+            runs.append(("live_1x2", mc_consts(1, 2, MaxNotify=1, RegKinds='{"garbage"}'), None, ["Delivered"], "LiveSpec"))
+            runs.append(("live_2x1", mc_consts(2, 1, MaxNotify=1, MaxBad=1, MaxConc=1, RegKinds='{"garbage"}'), None,
+                         ["Delivered"], "LiveSpec"))
+    for name, consts, iv, pr, spec in runs:
+        r = run_tlc_cfg(mdir, name, consts, iv, pr, spec)
+        stats["tlc"].append(r)
+        log("TLC %s: %s distinct states, %s s, %s" % (name, r["distinct"], r["wall_s"], "ok" if r["ok"] else r["violated"]))
+        if not r["ok"]:
+            raise ToolError("the intended design (DEVIATIONS = {}) violates %s in MC_Client/%s: the specification is wrong"
+                            % (r["violated"], name))
+    if tier == "thorough":
+        for fid in ORDER:
+            if pid not in FINDINGS[fid]["props"]:
+                continue
+            live = pid == "C13" and fid in ("S19", "S14")
+            consts = mc_consts(1, 2 if live or fid == "S18" else 1, DEVIATIONS='{"%s"}' % fid)
+            if live:
+                consts.update(MaxNotify=1, RegKinds='{"garbage"}')
+            r = run_tlc_cfg(mdir, "deviation_" + fid, consts, None if live else invs, ["Delivered"] if live else None,
+                            "LiveSpec" if live else "Spec")
+            r["expected_counterexample"] = True
+            stats["tlc"].append(r)
+            log("TLC with deviation %s: %s" % (fid, r["violated"] or "no counterexample"))
+            if r["ok"]:
+                raise ToolError("deviation %s switched on but TLC finds no counterexample to %s: the invariants are vacuous"
+                                % (fid, pid))
+
+
+# ---------------------------------------------------------------------------------------------------
+# regression scripts of the confirmed findings (kept in every tier)
+
+def regression_scripts():
+    out = []
+    s = Sc("fix-S12", 1, fam="regression", covers=["S12"])
+    s.regall().mode("t1", {"k": "garbage", "variant": 0}).notify("l1").probe()
+    out.append(s.done())
+    s = Sc("fix-S13", 1, fam="regression", covers=["S13"])
+    s.regall().down("t1").notify("l1").mode("t1", {"k": "garbage", "variant": 1}).up("t1").sleep(2500).probe()
+    out.append(s.done())
+    s = Sc("fix-S14-hook", 2, fam="regression", covers=["S14"])
+    s.regall().mode("t1", {"k": "malsig", "variant": 1}).mode("t2", {"k": "malsig", "variant": 1}).notify("l1").probe()
+    s.mode("t1", ACCEPT).mode("t2", ACCEPT).notify("l2").probe()
+    out.append(s.done())
+    s = Sc("fix-S14-retrier", 1, fam="regression", covers=["S14"])
+    s.regall().down("t1").notify("l1").queue("t1", [{"k": "malsig", "variant": 3}]).up("t1").sleep(2500).retry("t1")
+    s.sleep(deliver_bound_ms() + 500).probe()
+    out.append(s.done())
+    s = Sc("fix-S15-accepted", 1, fam="regression", covers=["S15"])
+    s.regall().notify("l1").notify("l1").probe().notify("l2").probe()
+    out.append(s.done())
+    s = Sc("fix-S15-pending", 1, fam="regression", covers=["S15"])
+    s.regall().down("t1").notify("l1").notify("l1").probe().up("t1").delivered("t1").probe()
+    out.append(s.done())
+    # S18: two handlers in flight; the tower answers one with a subscription error and the other with a bad signature
+    s = Sc("fix-S18", 1, fam="regression", covers=["S18"])
+    s.regall().mode("t1", {"k": "accept", "hold": True}).notify("l1", wait=False).notify("l2", wait=False)
+    s.step(op="wait_req", t="t1", count=3, arrival=True, timeout_ms=4000)
+    s.step(op="release", t="t1", beh={"k": "sub_error"}).step(op="release", t="t1", beh={"k": "badsig"})
+    s.mode("t1", ACCEPT).mode("t1", ACCEPT, "reg").wait_for("l1").wait_for("l2").sleep(3500).probe()
+    out.append(s.done())
+    # S19: revocation in the second between the automatic wake-up of an idle retrier and its start
+    for off in (2600, 2900, 3200):
+        s = Sc("fix-S19-%d" % off, 1, fam="regression", covers=["S19"])
+        s.regall().down("t1").notify("l1").wait_state("t1", ["unreachable"], 1, giveup_bound_ms() + 1500).up("t1")
+        s.sleep(off).notify("l2").delivered("t1").probe()
+        out.append(s.done())
+    return out
+
+
+# ---------------------------------------------------------------------------------------------------
+# the check
+
+ASSUMPTIONS = [
+    "the fake towers (harness/client_rig) sign receipts with teos_common::receipts / cryptography exactly as the real tower "
+    "does; the class of every answer (accept / sub_error / reject / badsig / malsig / garbage) is read off the bytes "
+    "actually sent, with teos_common's own signature verifier",
+    "the client is observed from outside only: plugin stdio protocol, requests reaching the towers, rows of its SQLite "
+    "file (second read-only connection), panic messages on stderr; everything in between is closed over by "
+    "Trace_Client.tla (set of compatible states of Client.tla)",
+    "retry options 2 s / 1 s / 1 s (max retry time, auto retry delay, max interval); timing obligations use the bounds "
+    "derived from them plus %d ms slack; a connection refused cannot be seen by a tower, so NoFlood is judged on "
+    "requests that reach a tower" % SLACK_MS,
+    "a tower that accepts a connection and never answers is outside the quantifier (reqwest has no timeout configured)",
+    "SIGKILL lands where the scheduler puts it: crash points between two SQLite transactions are hit statistically "
+    "(random delays after a tower's answer), not enumerated - the plugin has no crash-point hook",
+]
+
+
+def run_check(pid, tier, replay, scenarios_fn, rule):
+    t0 = time.time()
+    wd = workdir(pid)
+    client, _ = build_all()
+    rng = random.Random(seed() * 7919 + sum(ord(ch) for ch in pid))
+    verdict = Verdict(pid)
+    stats = {"tlc": [], "gen": {}}
+    if replay:
+        rp = json.load(open(replay))
+        scens = [rp["replay"]["scenario"]]
+    else:
+        design_level(pid, tier, wd, stats)
+        scens = scenarios_fn(rng, tier, wd, stats)
+    names = [s["name"] for s in scens]
+    if len(set(names)) != len(names):
+        raise ToolError("scenario names are not unique")
+    by_name = {s["name"]: s for s in scens}
+    t1 = time.time()
+    res, sdir = run_scenarios(scens, wd, client)
+    run_wall = time.time() - t1
+    t1 = time.time()
+    tags_of, lines = validate_many(names, sdir, wd)
+    val_wall = time.time() - t1
+    # scenarios whose timing assumptions were not met are run once more, alone; still inconclusive = tool error
+    inconclusive = [n for n in names if res[n]["inconclusive"] or any(t[1] == "INCONCLUSIVE" for t in tags_of[n])]
+    if inconclusive:
+        log("inconclusive scenarios, run again one by one: %s" % inconclusive)
+        res2, _ = run_scenarios([by_name[n] for n in inconclusive], wd, client, jobs=2)
+        tags2, _ = validate_many(inconclusive, sdir, wd)
+        for n in inconclusive:
+            res[n] = res2[n]
+            tags_of[n] = tags2[n]
+        still = [n for n in inconclusive if res[n]["inconclusive"] or any(t[1] == "INCONCLUSIVE" for t in tags_of[n])]
+        if still:
+            raise ToolError("timing assumptions not met (machine overloaded?) in scenarios %s: %s" %
+                            (still, [res[n]["inconclusive"] for n in still][:3]))
+    hits = {}
+    other = {}
+    tagged = 0
+    for n in names:
+        sc = by_name[n]
+        mine = classify(pid, tags_of[n])
+        if mine:
+            tagged += 1
+        for (_ln, prop, what, _x) in tags_of[n]:
+            if prop not in (pid, "ABORT"):
+                other["%s.%s" % (prop, what)] = other.get("%s.%s" % (prop, what), 0) + 1
+        for fid, key, text, ln in mine:
+            trace = os.path.join(sdir, n + ".ndjson")
+            if fid is not None:
+                f = FINDINGS[fid]
+                hits[fid] = hits.get(fid, 0) + 1
+                verdict.disagree(fid, f["site"], f["scenario"],
+                                 "%s %s: %s [first seen: %s in scenario %s, trace %s line %d]" % (pid, fid, f["what"], key, n, trace, ln),
+                                 {"scenario": sc, "finding": fid, "tag": key, "trace": trace, "line": ln,
+                                  "tags": [list(t) for t in tags_of[n]][:40]})
+            else:
+                verdict.disagree(key, "trace:" + sc.get("family", ""), (sc.get("covers") or ["-"])[0],
+                                 "%s: %s in scenario %s (trace %s line %d) is not allowed by Client.tla / Trace_Client.tla" %
+                                 (pid, text, n, trace, ln),
+                                 {"scenario": sc, "tag": key, "trace": trace, "line": ln,
+                                  "tags": [list(t) for t in tags_of[n]][:40]})
+    nviol = verdict.finish()
+    if replay:
+        log("replay of %s: %s" % (replay, "still disagrees" if (nviol or verdict.known_hits) else "no disagreement"))
+        return 1 if nviol else 0
+    sigs = {}
+    nontrivial = 0
+    for n in names:
+        sg, nt = signature(os.path.join(sdir, n + ".ndjson"))
+        if nt:
+            nontrivial += 1
+            sigs[sg] = sigs.get(sg, 0) + 1
+    fams = {}
+    covers = {}
+    for s in scens:
+        fams[s.get("family", "")] = fams.get(s.get("family", ""), 0) + 1
+        for c in s.get("covers", []):
+            covers[c] = covers.get(c, 0) + 1
+    sample_names = [n for n in names if classify(pid, tags_of[n])][:1] + names[:1]
+    samples = []
+    for n in sample_names[:2]:
+        with open(os.path.join(sdir, n + ".ndjson")) as f:
+            evs = [json.loads(x) for x in f.readlines()]
+        samples.append({"direction": "spec->impl" if by_name[n].get("family") == "tlc" else "impl->spec",
+                        "scenario": {"name": n, "steps": by_name[n]["steps"][:14]},
+                        "trace_excerpt": [{k: v for k, v in e.items() if k in ("ev", "m", "t", "l", "ep", "cls", "res", "ts")}
+                                          for e in evs if e["ev"] not in ("obs", "same", "start", "mode")][:14],
+                        "tags": [list(t) for t in tags_of[n]][:8]})
+    write_evidence(pid, tier, "model_checking", {
+        "states": sum(r["distinct"] for r in stats["tlc"]),
+        "transitions": sum(r["generated"] for r in stats["tlc"]),
+        "traces_validated_against_impl": len(names),
+        "evaluations": len(names),
+        "distinct_nontrivial": len(sigs),
+        "rule": rule,
+        "exhaustive": False,
+        "tlc_configs": stats["tlc"],
+        "scenario_families": fams,
+        "clauses_covered": covers,
+        "scenarios_from_tlc_behaviours": fams.get("tlc", 0),
+        "generator": stats["gen"],
+        "nontrivial_scenarios": nontrivial,
+        "impl_trace_lines_validated": lines,
+        "scenarios_with_tags_of_this_property": tagged,
+        "findings_hit": hits,
+        "known_findings_hit": verdict.known_hits,
+        "tags_of_other_properties": other,
+        "scenario_run_wall_s": round(run_wall, 1),
+        "trace_validation_wall_s": round(val_wall, 1),
+        "samples": samples,
+    }, ASSUMPTIONS, time.time() - t0, nviol)
+    return 1 if nviol else 0
+
+
+def tlc_scripts(tag, rng, wd, stats, n):
+    beh = tlc_behaviours(os.path.join(wd, "gen"), max(60, 3 * n), 120, seed(), stats["gen"])
+    pk = pick_behaviours(beh, n, rng)
+    stats["gen"]["behaviours_turned_into_scripts"] = len(pk)
+    return [script_of_behaviour("%s-tlc%d" % (tag, i), b) for i, b in enumerate(pk)]
